@@ -26,7 +26,9 @@ def expected_response(form, d):
         return "numeric", d["y"].values.astype(float), None
     if form == "np.log(trials)":
         return "numeric", np.log(d["trials"].values.astype(float)), None
-    for col, levels in (("s", ["a", "b", "c"]), ("sp", ["one", "two words", "z z"]), ("c", ["p", "q", "r"]), ("o", ["low", "mid", "high"])):
+    for col, levels in (("s", None), ("sp", None), ("c", None), ("o", ["low", "mid", "high"])):
+        if levels is None:       # data that is not an ordered categorical: the observed values, sorted
+            levels = sorted(set(d[col].astype(object).values))
         if form == col:
             v = d[col].astype(object).values
             return "categoric", np.column_stack([(v == l).astype(float) for l in levels]), levels
@@ -45,11 +47,12 @@ FORMS = ["y", "np.log(trials)", "s", "sp", "c", "o", "s[a]", "s['b']", "sp['two 
 
 
 def PROOFS():
-    from ..contracts import transforms_c, variable_c, terms_c  # noqa: F401
+    from ..contracts import transforms_c, variable_c, terms_c, matrices_c  # noqa: F401
     T = "formulae.transforms."
     return [("vf.contracts.transforms_c", [T + "Proportion.__init__", T + "Proportion.eval"]),
             ("vf.contracts.variable_c", ["formulae.terms.variable.Variable.eval_categoric"]),
-            ("vf.contracts.terms_c", ["formulae.terms.terms.Response.__init__"])]
+            ("vf.contracts.terms_c", ["formulae.terms.terms.Response.__init__"]),
+            ("vf.contracts.matrices_c", ["formulae.matrices.ResponseMatrix.evaluate"])]
 
 
 def run(report, findings):
@@ -95,6 +98,31 @@ def run(report, findings):
                                             or list(a.terms) != list(b.terms)):
                         err = err or f"{part} matrix depends on the response"
                 res.append((f, err or "ok"))
+        # degenerate frames: a single row; a categorical response with a single observed level - shapes must not collapse
+        one = d.iloc[[3]].reset_index(drop=True)
+        const = d.copy()
+        const["s"] = "b"
+        const["c"] = pd.Categorical(["q"] * len(d), categories=["r", "q", "p"])
+        zero = d.copy()
+        zero.loc[[2, 7], ["trials", "k"]] = 0          # no trials, no successes: a valid row of a proportion response
+        for tagf, e in (("one-row frame", one), ("single-level frame", const), ("frame with zero-trial rows", zero)):
+            for form in ("y", "s", "c", "o", "s[b]", "prop(k, trials)", "prop(k, 12)"):
+                f = f"{form} ~ 1"
+                try:
+                    dm = design_matrices(f, e)
+                except Exception as ex:
+                    res.append((f"{f} on the {tagf}", f"raised {type(ex).__name__}: {ex}"))
+                    continue
+                kind, want, levels = expected_response(form, e)
+                R = np.asarray(dm.response.design_matrix, dtype=float)
+                err = None
+                if dm.response.kind != kind:
+                    err = f"response kind {dm.response.kind!r}, expected {kind!r}"
+                elif R.shape != want.shape or not np.allclose(R, want):
+                    err = f"response values differ from the specification (shape {R.shape} vs {want.shape})"
+                elif levels is not None and list(dm.response.levels) != levels:
+                    err = f"response levels {dm.response.levels} != {levels}"
+                res.append((f"{f} on the {tagf}", err or "ok"))
         for f in ("y + x ~ g2", "y:x ~ g2", "y*x ~ 1", "(y|g2) ~ x", "1 ~ x"):
             try:
                 design_matrices(f, d)
